@@ -24,8 +24,9 @@ class LocalEnv:
     object is that local is *not* checked - callers that need that use
     `mutated`)."""
 
-    def __init__(self, fn):
+    def __init__(self, fn, fs=None):
         self.fn = fn
+        self.fs = fs        # when given, trivial accessors `T f(..) const { return E; }` called on *this are inlined
         self.defs = {}      # dloc -> init node
         self.names = {}     # dloc -> name
         self.types = {}
@@ -140,6 +141,10 @@ def canon(n, env=None, depth=0, subst=True):
             return _not(a)
         if op == '-' and isinstance(a, tuple) and a[0] == 'num':
             return ('num', -a[1])
+        if op == '-':
+            return ('neg', a)
+        if op == '+':
+            return a
         if op in ('*', '&'):
             # address-of / deref are representation detail for our comparisons
             return a
@@ -164,6 +169,8 @@ def canon(n, env=None, depth=0, subst=True):
             return args[0]
         if op == '->' and len(args) == 1:
             return args[0]
+        if op in ('++', '--'):
+            return (('post' + op) if len(args) == 2 else op, args[0])
         if op == '[]':
             return ('[]',) + tuple(args)
         if op == '()':
@@ -182,6 +189,11 @@ def canon(n, env=None, depth=0, subst=True):
         args = [rec(x) for x in c[1:]]
         name = n.get('callee_name') or me.get('member', '?')
         base = (me.get('c') or [None])[0]
+        if env is not None and getattr(env, 'fs', None) is not None and me.get('k') == 'MemberExpr' and (
+                base is None or base.get('k') == 'CXXThisExpr') and depth < 8:
+            e = _inline_accessor(env.fs, n.get('callee'), args)
+            if e is not None:
+                return e
         if me.get('k') != 'MemberExpr':
             return ('mcall', name, rec(me)) + tuple(args)
         if base is None or base.get('k') == 'CXXThisExpr':
@@ -206,6 +218,26 @@ def canon(n, env=None, depth=0, subst=True):
     if k == 'LambdaExpr':
         return ('lambda', n.get('loc'))
     return (k,) + tuple(rec(x) for x in c)
+
+
+def _inline_accessor(fs, callee, args):
+    f = fs.fns.get(callee or '')
+    if f is None or not f.is_def or not f.get('const') or len(f['params']) != len(args):
+        return None
+    c = (f.body or {}).get('c') or []
+    if len(c) != 1 or c[0].get('k') != 'ReturnStmt' or not c[0].get('c'):
+        return None
+    e = canon(c[0]['c'][0], None)
+    sub = {p['name']: a for p, a in zip(f['params'], args)}
+    return _subst_names(e, sub)
+
+
+def _subst_names(t, sub):
+    if isinstance(t, str):
+        return sub.get(t, t)
+    if isinstance(t, tuple):
+        return tuple(_subst_names(x, sub) for x in t)
+    return t
 
 
 def _pure(d):
